@@ -9,7 +9,7 @@ import sys
 import time
 import traceback
 
-sys.path.insert(0, "/verif/harness")
+sys.path.insert(0, os.path.dirname(os.path.abspath(__file__)))
 import core  # noqa: E402
 from core import Ctx  # noqa: E402
 
